@@ -119,8 +119,8 @@ theorem C19_buffer (capsAt : Nat → Option Caps) (names : List (Bytes × Nat))
 
 /-- **C19 for a line of a line-oriented search** (`Replacer::replace_all`, non-multi-line branch): for the
 range `[rs, re)` of `haystack`, `rs ≤ re ≤ |haystack|`, the buffer is the replace-all — reference template
-grammar, every match, unmatched text intact — of the haystack cut at the line's content end `hay`.
-No guard on the line: terminated or not. -/
+grammar, every match, unmatched text intact — of the haystack cut at the line's content end `hay`,
+followed by the line's own terminator bytes, untouched. No guard on the line: terminated or not. -/
 theorem C19_line (t : LineTerm) (capsAtOf : Bytes → Nat → Option Caps) (names : List (Bytes × Nat))
     (haystack : Bytes) (rs re : Nat) (tmpl : Bytes)
     (hrange : rs ≤ re ∧ re ≤ haystack.length)
@@ -129,10 +129,12 @@ theorem C19_line (t : LineTerm) (capsAtOf : Bytes → Nat → Option Caps) (name
     (hay : Bytes) (hhay : hay = haystack.take (trimLineTerminator t haystack 0 re)) :
     (replaceAllLine t capsAtOf names haystack rs re tmpl).dst =
       replaceAllSpec hay (fun c => expand (envOf hay names c) tmpl)
-        (allMatches (capsAtOf hay) hay.length rs) rs hay.length := by
+        (allMatches (capsAtOf hay) hay.length rs) rs hay.length
+      ++ slice haystack (trimLineTerminator t haystack 0 re) re := by
   unfold replaceAllLine
   simp only
   rw [← hhay]
+  congr 1
   apply C19_buffer (capsAtOf hay) names hay rs re _ tmpl (hs hay) _ hok (henv hay)
   rcases trim_cases t haystack re hrange.2 with hlt | ⟨heq, hns⟩
   · left
